@@ -1,6 +1,6 @@
 SPECIFICATION Spec
 CONSTANTS
-  MaxPg = 9
+  MaxPg = 8
   MaxTx = 5
   MaxReaders = 2
   NoFLSync = FALSE
